@@ -16,15 +16,9 @@ theorem hasRoad_loop0_eq (c : Consts) (l : List W) (b : Bool) :
   | nil => simp [Gen.positionHasRoad_loop0]
   | cons g tl ih =>
     unfold Gen.positionHasRoad_loop0
-    by_cases h : isRoadGroup c g = true
-    · have h' := h
-      unfold isRoadGroup at h'
-      simp only [h', if_true, List.any_cons, h, Bool.true_or]
-    · have h' : isRoadGroup c g = false := by simpa using h
-      have h'' := h'
-      unfold isRoadGroup at h''
-      simp only [h'', List.any_cons, h', Bool.false_or, ih]
-      simp
+    -- by cases on the four edge tests: independent of the order in which the source combines them
+    cases h1 : (g &&& c.T != 0#64) <;> cases h2 : (g &&& c.B != 0#64) <;> cases h3 : (g &&& c.L != 0#64) <;>
+      cases h4 : (g &&& c.R != 0#64) <;> simp [isRoadGroup, h1, h2, h3, h4, ih]
 
 theorem hasRoad_loop1_eq (c : Consts) (l : List W) (b : Bool) :
     Gen.positionHasRoad_loop1 c.B c.L c.R c.T l b = if l.any (isRoadGroup c) then true else b := by
@@ -32,15 +26,9 @@ theorem hasRoad_loop1_eq (c : Consts) (l : List W) (b : Bool) :
   | nil => simp [Gen.positionHasRoad_loop1]
   | cons g tl ih =>
     unfold Gen.positionHasRoad_loop1
-    by_cases h : isRoadGroup c g = true
-    · have h' := h
-      unfold isRoadGroup at h'
-      simp only [h', if_true, List.any_cons, h, Bool.true_or]
-    · have h' : isRoadGroup c g = false := by simpa using h
-      have h'' := h'
-      unfold isRoadGroup at h''
-      simp only [h'', List.any_cons, h', Bool.false_or, ih]
-      simp
+    -- by cases on the four edge tests: independent of the order in which the source combines them
+    cases h1 : (g &&& c.T != 0#64) <;> cases h2 : (g &&& c.B != 0#64) <;> cases h3 : (g &&& c.L != 0#64) <;>
+      cases h4 : (g &&& c.R != 0#64) <;> simp [isRoadGroup, h1, h2, h3, h4, ih]
 
 /-- `Position.hasRoad`: the model's `hasRoad` is the regenerated function of the group lists, the four edge masks and the ply -/
 theorem hasRoad_is_source (p : Pos) :
